@@ -48,13 +48,13 @@ type Scenario struct {
 }
 
 type script struct {
-	name    string
-	wire    []byte
-	headLen int
-	status  int
-	body    []byte // de-framed body
+	name           string
+	wire           []byte
+	headLen        int
+	status         int
+	body           []byte // de-framed body
 	closeDelimited bool
-	closes  bool // complete response ends the upstream connection AND the client connection (Connection: close / close-delimited)
+	closes         bool // complete response ends the upstream connection AND the client connection (Connection: close / close-delimited)
 }
 
 func mkScript(name, head string, wireBody string, body string, closeDelimited, closes bool, status int) script {
@@ -866,6 +866,9 @@ func main() {
 		"a correct complete response is always acceptable (e.g. after the transport legitimately retried an idempotent request on a fresh upstream connection)",
 		"client byte streams: the statement only demands that the proxy survives; additionally checked: no hang after the client's EOF (except through an established CONNECT tunnel, which is C04's subject), only HTTP goes back to the client, a fresh connection is still served",
 		"in-memory connections model TCP; every 9th scenario is re-run over loopback TCP and a different outcome is reported as a harness problem",
+	}
+	if rep.Incomplete != "" {
+		fmt.Fprintln(os.Stderr, "INCOMPLETE:", rep.Incomplete)
 	}
 	rep.Finish()
 }
